@@ -65,9 +65,9 @@ def cases(tier, seed):
         out.append(dict(model=model, alpha=alpha, ords=list(ords), state=st, rule=rule, grid=grid, cores=cores, imp=imp, seed=seed))
     # prescribed end rotation / shortening: the tangent must follow the load level on a re-used object
     for model, alpha, presc in itertools.product([m for m in nl_models() if m not in KERNEL_FINDINGS], [0., 20.],
-                                                 ['twist', 'twist+shortening', 'shortening']):
+                                                 ['twist', 'twist+shortening', 'shortening', 'twist+asymmetry']):
         out.append(dict(model=model, alpha=alpha, ords=[2, 1, 2], state='h', rule='trapz2d', grid='g24', cores=1, imp=0, presc=presc, seed=seed))
-        if presc != 'shortening':
+        if presc not in ('shortening', 'twist+asymmetry'):
             # the state handed over as a COMPLETE amplitude vector (prescribed entries included) at load factors other than 1
             out.append(dict(model=model, alpha=alpha, ords=[2, 1, 2], state='h', rule='trapz2d', grid='g24', cores=1, imp=0, presc=presc, full=1, seed=seed))
     # isotropic short-cut models: wall data changed on the same object after a first evaluation
@@ -88,6 +88,8 @@ def build(case, cores=None):
             cfg.update(pdT=False)                      # twist amplitude free, shortening prescribed: non-contiguous prescribed set
         if 'shortening' in case['presc']:
             cfg.update(pdC=True, uTM=1.0e-4)
+        if 'asymmetry' in case['presc']:              # prescribed load-asymmetry amplitude at a circumferential position other than 0
+            cfg.update(betadeg=0.02, tLAdeg=35.0)
     cc = rs.shell_of(cfg)
     if case['imp']:
         # one term of the half-cosine imperfection series
